@@ -47,6 +47,12 @@ def check(run, tier, seed, replay=None):
                    "with the same handover with in-process phases", faults=True)
     if replay and not dlg_replay:
         return
+    if not replay:
+        # the dry run of an object fails (500, webhook, 409, timeout, lost response): preflight has not accepted it, and
+        # whatever the checker does about it, no object the owner may not adopt is touched (m2) and every write is justified (m1)
+        base = pc.run_cases(run, pc.table(tier)[::3] + pc.random_phases(seed + 5, 150 if tier == "quick" else 2000), "C01Corr.judge", 2)
+        pc.dryrun_fault_stage(run, "C01", tier, seed, base, "C01 write or ownership change without permitted adoption, or adoption/refusal not carried out",
+                              judge="C01Corr.judge")
     hs = [rsc] if dlg_replay else handovers(seed, tier)
     n, passes, _, _ = dlg.delegation_stage(run, "C01", hs, id_mon=HANDOVER_ID, id_twin=HANDOVER_ID, id_own=HANDOVER_ID)
     run.cov["evaluations"] += n
